@@ -389,6 +389,13 @@ class DictList(list):
     def insert(self, index: int, entity: Object) -> None:
         """Insert entity before index."""
         self._check(entity.id)
+        # list.insert accepts negative and out-of-range indices; the position
+        # recorded in the index has to be the one the element ends up at
+        length = len(self)
+        if index < 0:
+            index = max(index + length, 0)
+        elif index > length:
+            index = length
         list.insert(self, index, entity)
         # all subsequent entries now have been shifted up by 1
         _dict = self._dict
@@ -488,6 +495,8 @@ class DictList(list):
             list.__setitem__(self, i, y)
             self._generate_index()
             return
+        if -len(self) <= i < 0:
+            i += len(self)
         # in case a rename has occurred
         if self._dict.get(self[i].id) == i:
             self._dict.pop(self[i].id)
@@ -503,6 +512,9 @@ class DictList(list):
         if isinstance(removed, list):
             self._generate_index()
             return
+        if index < 0:
+            # position of the removed element, counted from the front
+            index += len(self) + 1
         _dict = self._dict
         _dict.pop(removed.id)
         for i, j in _dict.items():
